@@ -1339,6 +1339,12 @@ func rawJobsC01(tier string) []string {
 		add(base+",mss=24,w=48,pd=2x20,ts=1,psack=1,sack=1,b=2", 16)
 		add(base+",mss=24,w=48,iss=2147483640,piss=4294967280,pd=2x20,b=2", 16)
 		add(base+",mss=100,w=3x100,pd=,b=2,ws=2", 16)
+		add(base+",mss=24,w=72,pd=3x20,b=2", 32)
+		add(base+",mss=24,w=3x24,pd=3x20,psack=1,sack=1,ts=1,b=2", 32)
+		add(base+",mss=536,w=1400,pd=2x300,b=2", 32)
+		add("or=s,devs=kwhloe,mss=24,w=72,pd=3x20,psack=1,sack=1,b=2", 32)
+		add(base+",mss=24,w=48,pd=20,b=3", 32)
+		add(base+",mss=24,w=48,iss=4294967270,piss=2147483640,pd=20,b=3", 32)
 	} else {
 		add(base+",mss=24,w=48,pd=20,b=2", 8)
 	}
